@@ -331,10 +331,13 @@ impl RobustUniqueIndexSet {
             for n in 0..self.capacity {
                 let cell = unsafe { &*cell_ptr.add(n) };
 
+                // Acquire, to synchronize with the Release of the previous owner of the
+                // cell. Everything the previous owner did before it returned the cell,
+                // must be visible to the new owner.
                 match cell.compare_exchange(
                     OwnerId::EMPTY.0,
                     owner_id.0,
-                    Ordering::Relaxed,
+                    Ordering::Acquire,
                     Ordering::Relaxed,
                 ) {
                     Ok(_) => {
@@ -393,7 +396,7 @@ impl RobustUniqueIndexSet {
         match cell.compare_exchange(
             owner_id.0,
             OwnerId::EMPTY.0,
-            Ordering::Relaxed,
+            Ordering::Release,
             Ordering::Relaxed,
         ) {
             Ok(_) => {
@@ -451,7 +454,7 @@ impl RobustUniqueIndexSet {
                     .compare_exchange(
                         owner_id.0,
                         OwnerId::EMPTY.0,
-                        Ordering::Relaxed,
+                        Ordering::Release,
                         Ordering::Relaxed,
                     )
                     .is_ok()
